@@ -95,6 +95,10 @@ func runStoresHistory() int {
 				cert = signerChain.Leaf()
 			}
 			must(os.WriteFile(filepath.Join(d, "cert.pem"), pem.EncodeToMemory(&pem.Block{Type: "CERTIFICATE", Bytes: cert.Raw}), 0644))
+			if cont == "rootAndEmptyFile" {
+				// next to the root, a file without any certificate (0 bytes; sorted before or after the root's file)
+				must(os.WriteFile(filepath.Join(d, []string{"a-empty.pem", "z-empty.crt"}[mix(*flagSeed, c.ID, "ef"+ref)%2]), nil, 0644))
+			}
 		}
 		// one statement per verification of the history
 		doc := &trustpolicy.OCIDocument{Version: "1.0"}
